@@ -41,6 +41,11 @@ def run(v):
         v.failure({"kind": "model", "invariant": r.violated}, {"tlc_output": r.output[-3000:]})
     v.add_mc(f"MC_Spell/{t}", r, "every dictionary of <= MaxDict entries (spelling over {a,b,A,'} x dialect tag) x both "
              "dialects: ListedAccepted, CasedFormsAccepted, UnknownFlagged, OtherDialectFlagged")
+    # the merged dictionary (curated + user words): a seeded deviation (exact test against the first part only) must be refuted
+    rdv = common.tlc(os.path.join(SPEC, "mc", "MC_Spell.tla"), os.path.join(SPEC, "mc", "MC_Spell_dev_firstpart.cfg"), "c06_mc_dev",
+                     workers=2, timeout=600, coverage=False)
+    if rdv.violated != "MergedListedAccepted":
+        raise common.ToolError("MC_Spell: the first-part-only deviation is not refuted (vacuous invariant)")
     trace = os.path.join(wd, "trace.ndjson")
     rc, out, err = common.run_hv(["c06", "--out", trace, "--seed", v.seed, "--sample", 0 if thorough else 6000,
                                   "--nonwords", 20000 if thorough else 1500], timeout=7200)
